@@ -82,8 +82,15 @@ func (k *KVStore) isCompactionOK(t *table.Table) bool {
 }
 
 func (k *KVStore) Compaction() (bool, error) {
-	for _, t := range k.tables {
+	for i, t := range k.tables {
 		if k.isCompactionOK(t) {
+			if i == len(k.tables)-1 {
+				// This is the table that accepts the writes. Its live entries cannot be
+				// moved into itself, start a new one first.
+				if err := k.makeTable(); err != nil {
+					return false, err
+				}
+			}
 			err := k.evictTable(t)
 			if err != nil {
 				return false, err
